@@ -717,6 +717,8 @@ struct ControlFlow<'a> {
     // HACK: `true` if this is an `if` expression in an `else if`.
     nested_if: bool,
     span: Span,
+    // The attributes of the expression: the inner attributes of a loop body are kept there.
+    attrs: &'a [ast::Attribute],
 }
 
 fn extract_pats_and_cond(expr: &ast::Expr) -> (Option<&ast::Pat>, &ast::Expr) {
@@ -747,15 +749,20 @@ fn to_control_flow(expr: &ast::Expr, expr_type: ExprType) -> Option<ControlFlow<
             ref body,
             label,
             kind,
-        } => Some(ControlFlow::new_for(
-            pat, iter, body, label, expr.span, kind,
-        )),
-        ast::ExprKind::Loop(ref block, label, _) => {
-            Some(ControlFlow::new_loop(block, label, expr.span))
-        }
+        } => Some(ControlFlow {
+            attrs: &expr.attrs,
+            ..ControlFlow::new_for(pat, iter, body, label, expr.span, kind)
+        }),
+        ast::ExprKind::Loop(ref block, label, _) => Some(ControlFlow {
+            attrs: &expr.attrs,
+            ..ControlFlow::new_loop(block, label, expr.span)
+        }),
         ast::ExprKind::While(ref cond, ref block, label) => {
             let (pat, cond) = extract_pats_and_cond(cond);
-            Some(ControlFlow::new_while(pat, cond, block, label, expr.span))
+            Some(ControlFlow {
+                attrs: &expr.attrs,
+                ..ControlFlow::new_while(pat, cond, block, label, expr.span)
+            })
         }
         _ => None,
     }
@@ -788,6 +795,7 @@ impl<'a> ControlFlow<'a> {
             allow_single_line,
             nested_if,
             span,
+            attrs: &[],
         }
     }
 
@@ -804,6 +812,7 @@ impl<'a> ControlFlow<'a> {
             allow_single_line: false,
             nested_if: false,
             span,
+            attrs: &[],
         }
     }
 
@@ -827,6 +836,7 @@ impl<'a> ControlFlow<'a> {
             allow_single_line: false,
             nested_if: false,
             span,
+            attrs: &[],
         }
     }
 
@@ -853,6 +863,7 @@ impl<'a> ControlFlow<'a> {
             allow_single_line: false,
             nested_if: false,
             span,
+            attrs: &[],
         }
     }
 
@@ -1165,8 +1176,15 @@ impl<'a> Rewrite for ControlFlow<'a> {
         };
         let block_str = {
             let old_val = context.is_if_else_block.replace(self.else_block.is_some());
-            let result =
-                rewrite_block_with_visitor(context, "", self.block, None, None, block_shape, true);
+            let result = rewrite_block_with_visitor(
+                context,
+                "",
+                self.block,
+                Some(self.attrs),
+                None,
+                block_shape,
+                true,
+            );
             context.is_if_else_block.replace(old_val);
             result?
         };
